@@ -5,7 +5,7 @@
    [outs] = the (member, value) pairs among them; [yields t] = the (key, value) pairs the group returned. *)
 From Coq Require Import List Arith Bool.
 Import ListNotations.
-Require Import ScanFull InstsFull ObligGroups C11Groups C02Join C02Groups.
+Require Import ScanFull InstsFull ObligGroups C11Groups C02Join C02Groups GroupCap.
 
 Section C11.
   Variables (selective: bool) (cap0: nat) (ops: list op).
@@ -54,6 +54,13 @@ Theorem C11_ledger selective cap0 ops :
   BalG (strip (tr _ (group_world selective false cap0 (ops ++ [ODrop])))).
 Proof. exact (C02_groups selective false cap0 ops). Qed.
 Print Assumptions C11_ledger.
+
+(* the capacity reported never shrinks along a history, whatever is inserted, removed, reserved, polled or woken in between
+   (so together with C11_capacity: capacity >= len at every moment, and reserve's effect is never undone) *)
+Theorem C11_capacity_never_shrinks selective cap0 ops1 ops2 :
+  g_cap (cs _ (group_world selective false cap0 ops1)) <= g_cap (cs _ (group_world selective false cap0 (ops1 ++ ops2))).
+Proof. exact (group_capacity_monotone selective false cap0 ops1 ops2). Qed.
+Print Assumptions C11_capacity_never_shrinks.
 
 (* the explicit "cannot happen" branch of the model's insert is unreachable, so the theorems above are not vacuous after an insert *)
 Theorem C11_insert_total (w: world gst) a sc : dropped _ w = false -> Tg (cs _ w) (strip (tr _ w)) -> dropped _ (g_mutate w 0 a sc) = false.
